@@ -386,6 +386,18 @@ func (db *DB) Merge() error {
 			return fmt.Errorf("when merge err: %s", err)
 		}
 
+		if db.ActiveFile.fileID == int64(pendingMergeFId) {
+			// the file the database was appending to held nothing worth keeping
+			// and is gone: later commits must go to a file that exists
+			db.ActiveFile.rwManager.Close()
+			db.MaxFileID++
+			if err := db.setActiveFile(); err != nil {
+				db.isMerging = false
+				f.rwManager.Close()
+				return err
+			}
+		}
+
 		f.rwManager.Close()
 	}
 
